@@ -1,5 +1,6 @@
 // Unit tuple_key_str (C16, strings of EVERY length): the 7-bit chunker that tuple_key v1 writes string elements with
-// (tuple_key/src/iter7.rs, Iterate7BitChunks::next, extracted verbatim) against a specification of everything it still has
+// (tuple_key/src/iter7.rs, Iterate7BitChunks::next) and the combiner that reads them back (tuple_key/src/combine7.rs,
+// Combine7BitChunks::next), both extracted verbatim.  The chunker against a specification of everything it still has
 // to emit -- `enc(rest of the bytes, pending bits, width)` -- and, over that specification, the theorem the property
 // needs: for byte strings s < t (lexicographically, any lengths) the chunk sequence of s is lexicographically below the
 // chunk sequence of t.  Strict monotonicity of a total order also gives injectivity (different strings, different
@@ -8,8 +9,12 @@
 // The code is tied to the specification by the postcondition of next(): what was still to be emitted before the call
 // is the byte handed out followed by what is still to be emitted after it (and nothing when None is returned); the
 // unmasked garbage the code keeps above `remains_bits` in `remains` is shown never to reach an output.
-// Not here: the continuation-bit discipline (unit tuple_key_walk), the inverse walk Combine7BitChunks (round trip: bounded
-// Kani harnesses of unit tuple_key), the descending direction (known finding C16-desc-string-prefix).
+// The combiner is tied in the same way to `dec(rest of the chunks, pending bits, width)`, and over the two specifications:
+// dec(enc(s)) == s for every byte string s (theorem_chunks_round_trip) -- a joint induction over both state machines with
+// the invariant that the bits in flight between them are a whole number of bytes, so the zero padding of the last chunk
+// never completes a byte.
+// Not here: the continuation-bit discipline (unit tuple_key_walk), String::from_utf8 and the one-byte form of the empty
+// string around the combiner, the descending direction (known finding C16-desc-string-prefix).
 use vstd::prelude::*;
 verus! {
 global size_of usize == 8;
@@ -193,6 +198,200 @@ proof fn theorem_chunks_preserve_order(s: Seq<u8>, t: Seq<u8>)
     lemma_enc_monotone(s, t, 0, 0);
 }
 
+// ------------------------------------------------------------------ the inverse walk (Combine7BitChunks)
+spec fn top8(d: u64, v: u64) -> u8 { (d >> ((v - 8) as u64)) as u8 }
+// everything the combiner still hands out: v pending bits d (d < 2^v), then the chunks c
+spec fn dec(c: Seq<u8>, d: u64, v: u64) -> Seq<u8>
+    decreases c.len(), v
+{
+    if v >= 8 {
+        seq![top8(d, v)] + dec(c, low(d, (v - 8) as u64), (v - 8) as u64)
+    } else if c.len() > 0 {
+        dec(c.drop_first(), (d << 7u64) | ((c[0] >> 1u8) as u64), (v + 7) as u64)
+    } else {
+        Seq::<u8>::empty()
+    }
+}
+// the bytes themselves, seen through a byte-aligned window of u in {0, 8, 16} bits in flight
+spec fn whole(s: Seq<u8>, q: u64, u: u64) -> Seq<u8>
+    decreases s.len(), u
+{
+    if u >= 8 {
+        seq![top8(q, u)] + whole(s, low(q, (u - 8) as u64), (u - 8) as u64)
+    } else if s.len() > 0 {
+        whole(s.drop_first(), (q << 8u64) | (s[0] as u64), (u + 8) as u64)
+    } else {
+        Seq::<u8>::empty()
+    }
+}
+
+proof fn lemma_whole_is_identity(s: Seq<u8>)
+    ensures whole(s, 0, 0) == s
+    decreases s.len()
+{
+    reveal_with_fuel(whole, 3);
+    if s.len() > 0 {
+        let b = s[0];
+        assert(top8((0u64 << 8u64) | (b as u64), 8) == b && low((0u64 << 8u64) | (b as u64), 0) == 0) by (bit_vector);
+        lemma_whole_is_identity(s.drop_first());
+        assert(whole(s, 0, 0) == whole(s.drop_first(), (0u64 << 8u64) | (b as u64), 8));
+        assert(whole(s.drop_first(), (0u64 << 8u64) | (b as u64), 8) == seq![b] + whole(s.drop_first(), 0, 0));
+        assert(seq![b] + s.drop_first() =~= s);
+    }
+}
+
+// w > 7, decoder holds v < 8 bits: the chunk passes its 7 bits on
+proof fn bv_rt_top_v0(p: u64, w: u64)
+    requires 8 <= w <= 15, p < (1u64 << w)
+    ensures ({
+        let d2 = (0u64 << 7u64) | ((chunk_top(p, w) >> 1u8) as u64);
+        ((d2 << ((w - 7) as u64)) | low(p, (w - 7) as u64)) == ((0u64 << w) | p) && d2 < (1u64 << 7u64) && low(p, (w - 7) as u64) < (1u64 << ((w - 7) as u64))
+    })
+{
+    assert({
+        let ct = ((((p >> ((w - 7) as u64)) as u8) & 0x7f) << 1u8) | 1u8;
+        let d2 = (0u64 << 7u64) | ((ct >> 1u8) as u64);
+        let pl = p & (((1u64 << ((w - 7) as u64)) - 1) as u64);
+        ((d2 << ((w - 7) as u64)) | pl) == ((0u64 << w) | p) && d2 < (1u64 << 7u64) && pl < (1u64 << ((w - 7) as u64))
+    }) by (bit_vector) requires 8 <= w <= 15, p < (1u64 << w);
+}
+proof fn bv_rt_top(p: u64, w: u64, d: u64, v: u64)
+    requires 8 <= w <= 15, p < (1u64 << w), 1 <= v <= 7, d < (1u64 << v), v + w == 16
+    ensures ({
+        let d2 = (d << 7u64) | ((chunk_top(p, w) >> 1u8) as u64);
+        let dd = low(d2, (v - 1) as u64);
+        let q = (d << w) | p;
+        &&& top8(d2, (v + 7) as u64) == top8(q, 16)
+        &&& ((dd << ((w - 7) as u64)) | low(p, (w - 7) as u64)) == low(q, 8)
+        &&& dd < (1u64 << ((v - 1) as u64)) && low(p, (w - 7) as u64) < (1u64 << ((w - 7) as u64))
+    })
+{
+    assert({
+        let ct = ((((p >> ((w - 7) as u64)) as u8) & 0x7f) << 1u8) | 1u8;
+        let d2 = (d << 7u64) | ((ct >> 1u8) as u64);
+        let dd = d2 & (((1u64 << ((v - 1) as u64)) - 1) as u64);
+        let pl = p & (((1u64 << ((w - 7) as u64)) - 1) as u64);
+        let q = (d << w) | p;
+        &&& ((d2 >> ((((v + 7) as u64) - 8) as u64)) as u8) == ((q >> ((16u64 - 8) as u64)) as u8)
+        &&& ((dd << ((w - 7) as u64)) | pl) == (q & (((1u64 << 8u64) - 1) as u64))
+        &&& dd < (1u64 << ((v - 1) as u64)) && pl < (1u64 << ((w - 7) as u64))
+    }) by (bit_vector) requires 8 <= w <= 15, p < (1u64 << w), 1 <= v <= 7, d < (1u64 << v), v + w == 16;
+}
+
+proof fn bv_rt_consume(p: u64, w: u64, d: u64, v: u64, b: u8)
+    requires w <= 7, p < (1u64 << w), v <= 7, d < (1u64 << v), v + w == 8
+    ensures ({
+        let p2 = (p << 8u64) | (b as u64);
+        let q = (d << w) | p;
+        let q2 = (d << ((w + 8) as u64)) | p2;
+        &&& top8(q2, 16) == top8(q, 8)
+        &&& low(q2, 8) == (low(q, 0) << 8u64) | (b as u64)
+        &&& p2 < (1u64 << ((w + 8) as u64))
+    })
+{
+    assert({
+        let p2 = (p << 8u64) | (b as u64);
+        let q = (d << w) | p;
+        let q2 = (d << ((w + 8) as u64)) | p2;
+        &&& ((q2 >> ((16u64 - 8) as u64)) as u8) == ((q >> ((8u64 - 8) as u64)) as u8)
+        &&& (q2 & (((1u64 << 8u64) - 1) as u64)) == ((q & (((1u64 << 0u64) - 1) as u64)) << 8u64) | (b as u64)
+        &&& p2 < (1u64 << ((w + 8) as u64))
+    }) by (bit_vector) requires w <= 7, p < (1u64 << w), v <= 7, d < (1u64 << v), v + w == 8;
+}
+proof fn bv_rt_consume0(b: u8)
+    ensures (((0u64 << 0u64) | 0u64) << 8u64) | (b as u64) == (0u64 << 8u64) | ((0u64 << 8u64) | (b as u64)), ((0u64 << 8u64) | (b as u64)) < (1u64 << 8u64)
+{
+    assert((((0u64 << 0u64) | 0u64) << 8u64) | (b as u64) == (0u64 << 8u64) | ((0u64 << 8u64) | (b as u64)) && ((0u64 << 8u64) | (b as u64)) < (1u64 << 8u64)) by (bit_vector);
+}
+proof fn bv_rt_last(p: u64, w: u64, d: u64, v: u64)
+    requires 1 <= w <= 7, p < (1u64 << w), 1 <= v <= 7, d < (1u64 << v), v + w == 8
+    ensures ({
+        let d2 = (d << 7u64) | ((chunk_last(p, w) >> 1u8) as u64);
+        top8(d2, (v + 7) as u64) == top8((d << w) | p, 8)
+    })
+{
+    assert({
+        let cl = (p as u8) << ((8 - w) as u8);
+        let d2 = (d << 7u64) | ((cl >> 1u8) as u64);
+        ((d2 >> ((((v + 7) as u64) - 8) as u64)) as u8) == ((((d << w) | p) >> ((8u64 - 8) as u64)) as u8)
+    }) by (bit_vector) requires 1 <= w <= 7, p < (1u64 << w), 1 <= v <= 7, d < (1u64 << v), v + w == 8;
+}
+proof fn bv_zero_width(x: u64)
+    requires x < (1u64 << 0u64)
+    ensures x == 0
+{
+    assert(x == 0) by (bit_vector) requires x < (1u64 << 0u64);
+}
+
+// the combiner run over the chunker's output hands back the bytes in flight and then the bytes still to be chunked
+proof fn lemma_round_trip(s: Seq<u8>, p: u64, w: u64, d: u64, v: u64)
+    requires w <= 15, p < (1u64 << w), v <= 7, d < (1u64 << v), (v + w) % 8 == 0
+    ensures dec(enc(s, p, w), d, v) == whole(s, (d << w) | p, (v + w) as u64)
+    decreases s.len(), w
+{
+    reveal_with_fuel(enc, 2);
+    reveal_with_fuel(dec, 3);
+    reveal_with_fuel(whole, 3);
+    let q = (d << w) | p;
+    if w > 7 {
+        let w2 = (w - 7) as u64; let pl = low(p, w2);
+        let ct = chunk_top(p, w); let x = enc(s, pl, w2);
+        let e = seq![ct] + x;
+        assert(e[0] == ct && e.drop_first() =~= x);
+        let d2 = (d << 7u64) | ((ct >> 1u8) as u64);
+        assert(dec(e, d, v) == dec(x, d2, (v + 7) as u64));
+        if v == 0 {
+            bv_zero_width(d);
+            bv_rt_top_v0(p, w);
+            lemma_round_trip(s, pl, w2, d2, 7);
+        } else {
+            bv_rt_top(p, w, d, v);
+            let dd = low(d2, (v - 1) as u64);
+            lemma_round_trip(s, pl, w2, dd, (v - 1) as u64);
+            assert(dec(x, d2, (v + 7) as u64) == seq![top8(d2, (v + 7) as u64)] + dec(x, dd, (v - 1) as u64));
+            assert(whole(s, q, 16) == seq![top8(q, 16)] + whole(s, low(q, 8), 8));
+        }
+    } else if s.len() > 0 {
+        let b = s[0]; let p2 = (p << 8u64) | (b as u64);
+        if v + w == 0 {
+            bv_zero_width(d); bv_zero_width(p);
+            bv_rt_consume0(b);
+            lemma_round_trip(s.drop_first(), p2, 8, d, v);
+            assert(whole(s, q, 0) == whole(s.drop_first(), (q << 8u64) | (b as u64), 8));
+        } else {
+            bv_rt_consume(p, w, d, v, b);
+            lemma_round_trip(s.drop_first(), p2, (w + 8) as u64, d, v);
+            let q2 = (d << ((w + 8) as u64)) | p2;
+            assert(whole(s.drop_first(), q2, 16) == seq![top8(q2, 16)] + whole(s.drop_first(), low(q2, 8), 8));
+            assert(whole(s, q, 8) == seq![top8(q, 8)] + whole(s, low(q, 0), 0));
+            assert(whole(s, low(q, 0), 0) == whole(s.drop_first(), (low(q, 0) << 8u64) | (b as u64), 8));
+        }
+    } else if w > 0 {
+        bv_rt_last(p, w, d, v);
+        let cl = chunk_last(p, w);
+        let e = seq![cl];
+        assert(enc(s, p, w) == e);
+        assert(e[0] == cl && e.drop_first() =~= Seq::<u8>::empty());
+        let d2 = (d << 7u64) | ((cl >> 1u8) as u64);
+        assert(dec(e, d, v) == dec(Seq::<u8>::empty(), d2, (v + 7) as u64));
+        assert(dec(Seq::<u8>::empty(), d2, (v + 7) as u64) == seq![top8(d2, (v + 7) as u64)] + dec(Seq::<u8>::empty(), low(d2, (v - 1) as u64), (v - 1) as u64));
+        assert(dec(Seq::<u8>::empty(), low(d2, (v - 1) as u64), (v - 1) as u64) == Seq::<u8>::empty());
+        assert(whole(s, q, 8) == seq![top8(q, 8)] + whole(s, low(q, 0), 0));
+        assert(whole(s, low(q, 0), 0) == Seq::<u8>::empty());
+    } else {
+        assert(enc(s, p, w) == Seq::<u8>::empty());
+    }
+}
+
+// the theorem: combining the chunks of a byte string gives the byte string back
+proof fn theorem_chunks_round_trip(s: Seq<u8>)
+    ensures dec(enc(s, 0, 0), 0, 0) == s
+{
+    assert(0u64 < (1u64 << 0u64) && (0u64 << 0u64) | 0u64 == 0u64) by (bit_vector);
+    lemma_round_trip(s, 0, 0, 0, 0);
+    lemma_whole_is_identity(s);
+}
+
 // ---- the code's shift register against the specification (remains carries garbage above remains_bits)
 proof fn bv_link_top(r: u64, w: usize)
     requires 8 <= w <= 15
@@ -286,7 +485,85 @@ impl<'a> Iterate7BitChunks<'a> {
 //@ end
 }
 
+
+// ---- the combiner's shift register against `dec`
+proof fn bv_link_absorb(r: u64, w: usize, b: u8)
+    requires w < 8
+    ensures low((r << 7u64) | ((b >> 1u8) as u64), ((w + 7) as usize) as u64) == (low(r, w as u64) << 7u64) | ((b >> 1u8) as u64),
+        // (the same register written with ^ or +)
+        (r << 7u64) ^ ((b >> 1u8) as u64) == (r << 7u64) | ((b >> 1u8) as u64), (r << 7u64) + ((b >> 1u8) as u64) == (r << 7u64) | ((b >> 1u8) as u64),
+{
+    assert((((r << 7u64) | ((b >> 1u8) as u64)) & (((1u64 << (((w + 7) as usize) as u64)) - 1) as u64)) == (((r & (((1u64 << (w as u64)) - 1) as u64)) << 7u64) | ((b >> 1u8) as u64))) by (bit_vector)
+        requires w < 8;
+    assert(((r << 7u64) ^ ((b >> 1u8) as u64)) == ((r << 7u64) | ((b >> 1u8) as u64)) && (r << 7u64) <= 0xffff_ffff_ffff_ff80u64
+        && (((r << 7u64) | ((b >> 1u8) as u64)) - (r << 7u64)) as u64 == ((b >> 1u8) as u64) && ((r << 7u64) | ((b >> 1u8) as u64)) >= (r << 7u64)) by (bit_vector);
+}
+proof fn bv_link_emit(r: u64, w: usize)
+    requires 8 <= w <= 14
+    ensures ((r >> ((w - 8) as usize)) as u8) == top8(low(r, w as u64), w as u64),
+        low(r, ((w - 8) as usize) as u64) == low(low(r, w as u64), ((w as u64) - 8) as u64),
+{
+    assert(((r >> ((w - 8) as usize)) as u8) == (((r & (((1u64 << (w as u64)) - 1) as u64)) >> (((w as u64) - 8) as u64)) as u8)
+        && (r & (((1u64 << (((w - 8) as usize) as u64)) - 1) as u64)) == ((r & (((1u64 << (w as u64)) - 1) as u64)) & (((1u64 << (((w as u64) - 8) as u64)) - 1) as u64))) by (bit_vector)
+        requires 8 <= w <= 14;
+}
+
+//@ extract tuple_key/src/combine7.rs | struct Combine7BitChunks
+//@ end
+impl<'a> Combine7BitChunks<'a> {
+    spec fn wf(&self) -> bool { self.offset <= self.bytes@.len() && self.remains_bits < 8 }
+    // everything this iterator still has to hand out
+    spec fn to_come(&self) -> Seq<u8> {
+        dec(self.bytes@.subrange(self.offset as int, self.bytes@.len() as int), low(self.remains, self.remains_bits as u64), self.remains_bits as u64)
+    }
+//@ extract tuple_key/src/combine7.rs | impl Combine7BitChunks<'a> :: fn new
+//@ ret r
+//@ post <<
+        r.wf(), r.bytes@ == bytes@, r.to_come() == dec(bytes@, 0, 0),
+//@ >>
+//@ bodystart <<
+        proof {
+            assert(0u64 & (((1u64 << 0u64) - 1) as u64) == 0u64) by (bit_vector);
+            assert(bytes@.subrange(0, bytes@.len() as int) =~= bytes@);
+        }
+//@ >>
+//@ end
+//@ extract tuple_key/src/combine7.rs | impl Iterator for Combine7BitChunks<'_> :: fn next
+//@ ret r
+//@ pre <<
+        old(self).wf(),
+//@ >>
+//@ post <<
+        final(self).wf(), final(self).bytes@ == old(self).bytes@,
+        old(self).to_come() == (match r { Some(x) => seq![x] + final(self).to_come(), None => Seq::<u8>::empty() }),
+//@ >>
+//@ loop 0 <<
+            invariant self.offset <= self.bytes@.len(), self.remains_bits < 15, self.bytes@ == old(self).bytes@,
+                self.to_come() == old(self).to_come(), /* contract-inv */
+            ensures self.offset <= self.bytes@.len(), self.remains_bits < 15, self.bytes@ == old(self).bytes@,
+                self.to_come() == old(self).to_come(),
+                self.remains_bits < 8 ==> self.offset == self.bytes@.len(),
+            decreases self.bytes@.len() - self.offset,
+//@ >>
+//@ startloop 0 <<
+            let ghost s1 = self.bytes@.subrange(self.offset as int, self.bytes@.len() as int);
+            proof {
+                bv_link_absorb(self.remains, self.remains_bits, self.bytes@[self.offset as int]);
+                assert(s1.drop_first() =~= self.bytes@.subrange(self.offset as int + 1, self.bytes@.len() as int));
+                assert(s1[0] == self.bytes@[self.offset as int]);
+            }
+//@ >>
+//@ afterloop 0 <<
+        proof {
+            if 8 <= self.remains_bits { bv_link_emit(self.remains, self.remains_bits); }
+            assert(self.bytes@.subrange(self.offset as int, self.bytes@.len() as int).len() == self.bytes@.len() - self.offset);
+        }
+//@ >>
+//@ end
+}
+
 //@ contract-lemma theorem_chunks_preserve_order
-//@ min-verified 20
+//@ contract-lemma theorem_chunks_round_trip
+//@ min-verified 40
 } // verus!
 fn main() {}
